@@ -43,7 +43,7 @@ ALL_FORMS = ("none", "one", "each")
 CFG = """SPECIFICATION Spec
 CONSTANTS
  MaxFiles = %d
- LayoutSeq <- MCLayouts
+ FileSeq <- MCLayouts
  HduForms <- MCHduForms
  KeyForms <- MCKeyForms
 INVARIANT CaseInScope
@@ -52,6 +52,8 @@ INVARIANT ListIsPositional
 INVARIANT NoneIsFirstImage
 INVARIANT ExactSelection
 INVARIANT InInputOrder
+INVARIANT EveryInputContributes
+INVARIANT RepeatsAreIndependent
 INVARIANT DescriptionsMatchImages
 INVARIANT CliFaithful
 INVARIANT ListIsLocal
@@ -61,13 +63,13 @@ CHECK_DEADLOCK FALSE
 """
 
 
-def mc_module(layouts_text, hforms=ALL_FORMS, kforms=ALL_FORMS, theorems=True):
+def mc_module(layouts_text, hforms=ALL_FORMS, kforms=ALL_FORMS, theorems=True, disjoint=True):
     defs = [
         ("MCLayouts", layouts_text),
         ("MCHduForms", tla.lit(set(hforms))),
         ("MCKeyForms", tla.lit(set(kforms))),
-        "ASSUME EncodingInjective /\\ EncodingKeys",
-        "ASSUME JsonSerialize(IOEnv.OUT, [files |-> FileTable, nlayouts |-> Len(LayoutSeq)])",
+        "ASSUME EncodingInjective /\\ EncodingKeys" + (" /\\ EncodingDisjoint" if disjoint else ""),
+        "ASSUME JsonSerialize(IOEnv.OUT, [files |-> FileTable, nfiles |-> Len(FileSeq)])",
         'Emit == Done => PrintT(<<"R", ToJson([lay |-> lay, hs |-> hs, ks |-> ks, '
         'cli |-> [hdu |-> Tokens(hs), key |-> Tokens(ks)], '
         'exp |-> [n \\in 1..N |-> Observed(dout[n])]])>>)',
@@ -86,7 +88,7 @@ def all_layouts(ctx):
             "ASSUME GuessIsFirstImage(4)",
             "ASSUME JsonSerialize(IOEnv.OUT, [l2 |-> SetToSeq({f \\in AllLayouts(2) : HasImage(f)}), "
             "l3 |-> SetToSeq({f \\in AllLayouts(3) : HasImage(f)})])"]
-    cfg = ("SPECIFICATION Spec\nCONSTANTS\n MaxFiles = 1\n LayoutSeq <- MCLayouts\n HduForms <- MCForms\n KeyForms <- MCForms\n"
+    cfg = ("SPECIFICATION Spec\nCONSTANTS\n MaxFiles = 1\n FileSeq <- MCLayouts\n HduForms <- MCForms\n KeyForms <- MCForms\n"
            "CHECK_DEADLOCK FALSE\n")
     ctx.tlc("MCLayouts", extra={"MCLayouts.tla": tla.module("MCLayouts", ["Collection", "Json", "IOUtils", "SequencesExt"], defs)},
             cfg_text=cfg, env={"OUT": outp}, workers=1, timeout=600, count=False)
@@ -138,8 +140,22 @@ def write_fits(path, hdus):
     fits.HDUList(out).writeto(path, overwrite=True)
 
 
-def file_path(root, i, l):
-    return os.path.join(root, "p%d_L%d.fits" % (i, l))
+def file_path(root, p):
+    return os.path.join(root, "F%d.fits" % p)
+
+
+def input_paths(root, exp, respell):
+    """The user's path list: one path per list position; a physical file named at several positions is the same path
+    (or, when `respell`, another spelling of it: dir/./F.fits, dir/././F.fits)."""
+    paths, seen = [], {}
+    for e in exp:
+        k = seen.get(e["file"], 0)
+        seen[e["file"]] = k + 1
+        if respell and k:
+            paths.append(os.path.join(root, *([os.curdir] * k + ["F%d.fits" % e["file"]])))
+        else:
+            paths.append(file_path(root, e["file"]))
+    return paths
 
 
 # ---------------------------------------------------------------------------------------------------
@@ -254,18 +270,20 @@ def replay_case(args):
     root, idx, rec, entries = args
     repo.setup()
     hs, ks, cli, exp = rec["hs"], rec["ks"], rec["cli"], rec["exp"]
-    paths = [file_path(root, e["path"], l) for e, l in zip(exp, rec["lay"])]
+    flip, respell = (idx // 4) % 2 == 1, (idx // 8) % 2 == 1
+    paths = input_paths(root, exp, respell)
     hform, kform = hs["form"], ks["form"]
     res = []
     for entry in entries:
-        case = {"entry": entry, "layouts": rec["lay"], "hdu_index": hs, "wcs_key": ks, "expected": exp}
+        case = {"entry": entry, "layouts": rec["lay"], "hdu_index": hs, "wcs_key": ks, "expected": exp,
+                "paths": [os.path.relpath(p_, root) for p_ in paths]}
         if entry == "cli":
             case["argv"] = _cli_opts(cli, hs, ks)
 
         def bad(sev, key, msg, case=case, entry=entry):
             res.append((sev, "%s:%s" % (entry, key), msg, case))
         try:
-            descs, imgs, simple = _try(entry, paths, hs, ks, cli, idx % 2 == 1)
+            descs, imgs, simple = _try(entry, paths, hs, ks, cli, flip)
         except _NoHook as e:
             bad("D", "no-hook", str(e))
             continue
@@ -274,7 +292,7 @@ def replay_case(args):
             cls = "hdu-" + hform
             if kform != "none":
                 try:
-                    _try(entry, paths, hs, {"form": "none", "v": []}, dict(cli, key=[]), idx % 2 == 1)
+                    _try(entry, paths, hs, {"form": "none", "v": []}, dict(cli, key=[]), flip)
                     cls = "key-" + kform
                 except BaseException:  # noqa
                     pass
@@ -283,7 +301,8 @@ def replay_case(args):
             continue
         n = len(exp)
         if len(descs) != n or len(imgs) != n:
-            bad("V", "item-count", "%d descriptions and %d images for %d input paths" % (len(descs), len(imgs), n))
+            bad("V", "item-count", "%d descriptions and %d images for %d input paths (%d distinct files; hdu_index %s, wcs_key %s)"
+                % (len(descs), len(imgs), n, len(set(paths)), _show(hs), _show(ks)))
             continue
         eshapes = [e["shape"] for e in exp]
         for what, items in (("descriptions", descs), ("images", imgs)):
@@ -312,7 +331,10 @@ def replay_case(args):
             bad("V", "export_simple", "export_simple() = %s, selected %s" % ([(os.path.basename(p), h) for p, h in simple],
                                                                               [(os.path.basename(p), h) for p, h in want]))
     nontrivial = any(e["hdu"] != 0 or e["key"] != " " for e in exp)
-    return res, nontrivial
+    # a physical file named at several positions with entries that differ between those positions
+    repeated = any(a["file"] == b["file"] and (a["hdu"], a["key"]) != (b["hdu"], b["key"])
+                   for x, a in enumerate(exp) for b in exp[x + 1:])
+    return res, nontrivial, repeated
 
 
 def _show(spec):
@@ -335,7 +357,7 @@ def e2e_case(args):
     from astropy.io import fits
     import toasty
     hs, ks, cli, exp = rec["hs"], rec["ks"], rec["cli"], rec["exp"]
-    paths = [file_path(root, e["path"], l) for e, l in zip(exp, rec["lay"])]
+    paths = input_paths(root, exp, False)
     out = os.path.join(root, "e2e-%s-%d" % (mode, idx))
     case = {"entry": mode, "layouts": rec["lay"], "hdu_index": hs, "wcs_key": ks, "expected": exp}
     res = []
@@ -370,9 +392,9 @@ def e2e_case(args):
 
 # ---------------------------------------------------------------------------------------------------
 
-def tlc_cases(ctx, name, layouts_text, maxfiles, hforms=ALL_FORMS, kforms=ALL_FORMS, theorems=True):
+def tlc_cases(ctx, name, layouts_text, maxfiles, hforms=ALL_FORMS, kforms=ALL_FORMS, theorems=True, disjoint=True):
     outp = os.path.join(ctx.scratch, "files-%s.json" % name)
-    r = ctx.tlc("MCCollection", extra={"MCCollection.tla": mc_module(layouts_text, hforms, kforms, theorems)},
+    r = ctx.tlc("MCCollection", extra={"MCCollection.tla": mc_module(layouts_text, hforms, kforms, theorems, disjoint)},
                 cfg_text=CFG % maxfiles, env={"OUT": outp}, workers=4, timeout=1800)
     recs = r.json_lines("R")
     if not recs or not os.path.exists(outp):
@@ -380,18 +402,18 @@ def tlc_cases(ctx, name, layouts_text, maxfiles, hforms=ALL_FORMS, kforms=ALL_FO
     table = json.load(open(outp))
     root = ctx.mkdtemp("fits-" + name)
     files = table["files"]
-    for i, per_layout in enumerate(files, start=1):
-        for l, hdus in enumerate(per_layout, start=1):
-            write_fits(file_path(root, i, l), hdus)
+    for p, hdus in enumerate(files, start=1):
+        write_fits(file_path(root, p), hdus)
     ctx.note("cases_" + name, len(recs))
-    ctx.note("fits_files_" + name, sum(len(p) for p in files))
+    ctx.note("fits_files_" + name, len(files))
     return root, recs
 
 
 def run(ctx):
     repo.setup(ctx)
     import multiprocessing as mp
-    ctx.rule = ("case = (collection of 1..3 file layouts, hdu_index none/one/list, wcs_key none/one/list), all in-scope cases "
+    ctx.rule = ("case = (sequence of 1..3 input paths over a set of physical files - the same file may be named at several "
+                "positions -, hdu_index none/one/list, wcs_key none/one/list), all in-scope cases "
                 "enumerated by TLC (selected HDU exists, is an image and carries the key); TLC checks the property's sentences "
                 "in every state of the descriptions()/images() interleavings and emits the expected (hdu, shape, value, key, "
                 "crval, crpix) per input path plus the files to write; each case is loaded by the real code through "
@@ -404,7 +426,7 @@ def run(ctx):
         l2, l3, n2, n3 = all_layouts(ctx)
         ctx.note("layouts_up_to_2_hdus", n2)
         ctx.note("layouts_up_to_3_hdus", n3)
-        groups.append(("all3x1",) + tlc_cases(ctx, "all3x1", l3, 1, theorems=False))
+        groups.append(("all3x1",) + tlc_cases(ctx, "all3x1", l3, 1, theorems=False, disjoint=False))
         groups.append(("all2x2",) + tlc_cases(ctx, "all2x2", l2, 2, theorems=False))
         groups.append(("six3",) + tlc_cases(ctx, "six3", LAYOUTS_6, 3, theorems=False))
     ctx.exhaustive = not ctx.quick
@@ -450,7 +472,9 @@ def run(ctx):
     with mp.Pool(8) as pool:
         results = pool.map(replay_case, jobs, chunksize=32)
         e2e_results = pool.map(e2e_case, e2e, chunksize=1)
-    for (res, nontrivial), (r_, idx, rec, ents), name in zip(results, jobs, names):
+    nrep = 0
+    for (res, nontrivial, repeated), (r_, idx, rec, ents), name in zip(results, jobs, names):
+        nrep += 1 if repeated else 0
         ctx.count(len(ents))
         ctx.trace_ok()
         if nontrivial:
@@ -460,10 +484,13 @@ def run(ctx):
         ctx.count()
         _report(ctx, res)
     ctx.note("end_to_end_tilings", len(e2e))
+    ctx.note("replayed_cases_naming_one_file_twice_with_different_entries", nrep)
     ctx.note("entry_points", list(ENTRIES) + ["tile_fits-e2e", "tile-multi-tan-e2e"])
     for _r, _i, rec, ents in jobs[:: max(1, len(jobs) // 5)][:5]:
         ctx.sample({"layouts": rec["lay"], "hdu_index": _show(rec["hs"]), "wcs_key": _show(rec["ks"]), "entry": list(ents),
                     "expected": [[e["hdu"], e["shape"], e["key"], e["crval"]] for e in rec["exp"]]})
+    ctx.assume("a path listed twice is two inputs (the documented way to take two extensions of one file); repeated paths are "
+               "given both as identical strings and as different spellings of the same file")
     ctx.assume("in scope: every selected HDU exists, holds a 2-D image and carries the selected WCS key; per-file lists have one "
                "entry per input path (what happens for tables, missing keys, short lists or files without any image is not judged)")
     ctx.assume("an HDU 'holds image data' when it is a 2-D image array (empty HDUs and binary tables do not); 1-D arrays, cubes, "
